@@ -59,6 +59,30 @@ def gen_case(rng, ctx, kinds: List[str], allow_tf=True, allow_fill=True, allow_h
             "meta": {"kind": kind, "n": n, "step": step, "ts_mode": ts_mode, "cfg": cfg}}
 
 
+def gen_pattern_tf_case(rng, ctx) -> Dict:
+    """A candle-pattern wrapper on a collapsing timeframe, fed in small chunks so that buckets
+    are calculated while still partial, with enough buckets for the patterns' look-back."""
+    from . import analysis as A
+    step = 60
+    k = rng.choice([2, 3, 5])
+    n = rng.randint(13 * k, 30 * k)
+    f = rng.choice(A.PATTERNS)
+    spec = {"kind": "AMORPH", "kw": {}, "analysis": {"f": f, "lookback": rng.choice([None, None, 5])},
+            "round_value": 4}
+    rows = X.gen_rows(rng, n, rng.choice(["walk", "eqclose", "tiny", "mixed"]), step=step, ts_mode="regular")
+    for r in rows:
+        r["inds"] = {}
+    cfg = {"tf": f"T{k}"}
+    init_n = rng.choice([0, 1, rng.randint(0, n // 2)])
+    chunks, i = [], init_n
+    while i < n:
+        m = rng.choice([1, 1, 2, 3])
+        chunks.append(rows[i:i + m])
+        i += m
+    return {"spec": spec, "cfg": cfg, "rows": rows, "init": rows[:init_n], "chunks": chunks,
+            "meta": {"kind": "AMORPH", "n": n, "step": step, "ts_mode": "regular", "cfg": cfg}}
+
+
 def snapshot(ind) -> List[Dict]:
     return [{"ts": gen.to_ts(c.timestamp) if c.timestamp is not None else None,
              "ohlcv": (c.open, c.high, c.low, c.close, c.volume),
